@@ -313,6 +313,25 @@ fn gen_leaf(rng: &mut Rng, g: &Generics) -> String {
             _ => format!("Option<Box<Vec<Option<{t}>>>>"),
         };
     }
+    // associated types of the item's own type parameters (`T::Item`, `K::Error`, ..): what a
+    // derive has to bound in addition to the parameters themselves
+    if !g.types.is_empty() && rng.chance(1, 12) {
+        let t = g.types[rng.usize(g.types.len())];
+        let assoc = *rng.pick(&["Item", "Output", "Error", "Target", "Owned", "IntoIter"]);
+        return if rng.chance(1, 4) {
+            let tr = match assoc {
+                "Item" => "::core::iter::Iterator",
+                "Output" => "::core::ops::Add",
+                "Error" => "::core::str::FromStr",
+                "Target" => "::core::ops::Deref",
+                "Owned" => "ToOwned",
+                _ => "IntoIterator",
+            };
+            format!("<{t} as {tr}>::{assoc}")
+        } else {
+            format!("{t}::{assoc}")
+        };
+    }
     match rng.below(20) {
         0..=8 if !g.types.is_empty() => rng.pick(&g.types).to_string(),
         9..=10 => {
